@@ -135,7 +135,7 @@ func c10(r *mon.Run) {
 			}
 		}}
 	// by-expression key validation
-	keyVals := []string{`1`, `2`, `0`, `"a"`, `"b"`, `""`, `null`, `[1]`, `{"x":1}`, `true`, ``} // `` = key missing; 0 and "" are the extremal keys a scan could stop at
+	keyVals := []string{`1`, `2`, `0`, `"a"`, `"b"`, `""`, `null`, `[1]`, `{"x":1}`, `true`, ``, `"20"`, `"-0.5"`} // `` = key missing; 0 and "" are the extremal keys a scan could stop at
 	byFns := []string{"sort_by", "max_by", "min_by"}
 	K := len(keyVals)
 	nby := len(byFns) * (1 + K + K*K + K*K*K) * 2
